@@ -86,6 +86,7 @@ func registerModels(e *Engine) {
 	registerStrconv(e)
 	registerDist(e)
 	registerFS(e)
+	registerHTTP(e)
 }
 
 // ---------- verifrt intrinsics ----------
@@ -252,6 +253,21 @@ func registerRT(e *Engine) {
 	})
 	e.reg(rtPkg+".Exit", func(ex *Exec, fn *ssa.Function, args []Value) (Value, *PanicV) {
 		panic(pathEnd{kind: "exit"})
+	})
+	e.reg(rtPkg+".Dump", func(ex *Exec, fn *ssa.Function, args []Value) (Value, *PanicV) {
+		name := ex.argString(args[0])
+		r := ex.sliceRegion(args[1].(SliceV))
+		if !debugEngine {
+			return nil, nil
+		}
+		fmt.Printf("DUMP %s len=%s:", name, ex.ctx.Inline(r.n))
+		if r.n.isConst {
+			for i := uint64(0); i < r.n.cv && i < 64; i++ {
+				fmt.Printf(" %s", ex.ctx.Inline(ex.regAt(r, c64(ex.ctx, i))))
+			}
+		}
+		fmt.Println()
+		return nil, nil
 	})
 	e.reg(rtPkg+".Note", func(ex *Exec, fn *ssa.Function, args []Value) (Value, *PanicV) {
 		return nil, nil
@@ -504,6 +520,7 @@ var modelMethods = map[string]map[string]bool{
 	"block":        {"BlockSize": true, "Encrypt": true, "Decrypt": true},
 	"reader":       {"Read": true},
 	"runtime.Error": {"Error": true, "RuntimeError": true},
+	"httpbody":      {"Read": true, "Close": true},
 }
 
 func (ex *Exec) modelInvoke(mt *modelType, mo *ModelObj, method string, args []Value) (Value, *PanicV) {
@@ -518,6 +535,10 @@ func (ex *Exec) modelInvoke(mt *modelType, mo *ModelObj, method string, args []V
 	case "runtime.Error":
 		if method == "Error" {
 			return mo.state["msg"], nil
+		}
+	case "httpbody":
+		if method == "Close" {
+			return nilErr(), nil
 		}
 	case "block":
 		if method == "BlockSize" {
